@@ -188,6 +188,22 @@ var scenarios = map[string]scenario{
 		s.N.Receive(s.PreCommit(2, p))           // own + invalid + one valid
 		return s.W
 	}},
+	// D21: a re-request on timeout found the missing transaction in the pool, filled it in silently and never
+	// checked or answered the proposal; with M preparations of the others the node committed to a block its
+	// verification callback had never seen, and the transaction supplied afterwards was ignored.
+	"D21-pool-completion-unanswered": {Prop: "C12", Key: "no-answer-after-all-supplied", Run: func(keep bool) *sim.World {
+		s := sim.NewSolo(soloCfg(4, 1, -1), &ReplaySrc{}, 0, false, []*sim.Mon{sim.MonC12()}, keep)
+		s.N.Start() // height 2, primary 2, the node is backup 0
+		tx := s.W.NewTx(false)
+		p := s.Proposal(0, s.NextTs(), 1, tx)
+		s.N.Receive(p)
+		s.N.AddTx(tx) // reaches the pool before the application's notification
+		s.Fire()      // timeout -> recovery request -> the missing transaction is looked up in the pool again
+		s.N.Receive(s.Response(1, 0, p.Hash()))
+		s.N.Receive(s.Response(3, 0, p.Hash()))
+		s.N.Transaction(tx)
+		return s.W
+	}},
 	// D8: timePerBlock << (view+1) overflowed into a negative timer duration at high views.
 	"D8-view-timeout-overflow": {Prop: "C10", Key: "D8-negative-duration-high-view", Run: func(keep bool) *sim.World {
 		cfg := soloCfg(4, 1, -1)
